@@ -255,7 +255,8 @@ func (b *Bundle) SourceForLocalPath(p string) (sourceaddrs.FinalSource, error) {
 
 	// There can be potentially several packages all referring to the same
 	// directory, so to make the result deterministic we'll just take the
-	// one whose stringified source address is shortest.
+	// one whose stringified source address is shortest, and among equally
+	// short ones the one that sorts first.
 	var pkgAddr sourceaddrs.RemotePackage
 	found := false
 	for candidateAddr, candidateDir := range b.remotePackageDirs {
@@ -265,7 +266,8 @@ func (b *Bundle) SourceForLocalPath(p string) (sourceaddrs.FinalSource, error) {
 		if found {
 			// We've found multiple possible source addresses, so we
 			// need to decide which one to keep.
-			if len(candidateAddr.String()) > len(pkgAddr.String()) {
+			candidateStr, keptStr := candidateAddr.String(), pkgAddr.String()
+			if len(candidateStr) > len(keptStr) || (len(candidateStr) == len(keptStr) && candidateStr > keptStr) {
 				continue
 			}
 		}
